@@ -141,11 +141,12 @@ func (r zzRPC) keysOfPrewrite() [][]byte {
 	return out
 }
 
-// everAppliedPrimaryCommit: a primary commit request reached the store (was
-// executed or its outcome is unknown to the client).
+// everAppliedPrimaryCommit: a primary commit request took effect in the store (ghost knowledge of
+// the harness: also when its answer was lost). A request that never arrived, or one the store refused,
+// does not count - after a definite refusal of a retried request the client may roll back.
 func (c *zzCluster) everAppliedPrimaryCommit(log []zzRPC, primary []byte) bool {
 	for _, r := range log {
-		if r.cmd == tikvrpc.CmdCommit && r.isPrimary && (!r.answered || zzCommitOK(r)) {
+		if r.cmd == tikvrpc.CmdCommit && r.isPrimary && r.applied && r.storeOK {
 			return true
 		}
 	}
